@@ -3,6 +3,7 @@ use crate::CheckDef;
 pub mod c01;
 pub mod c02;
 pub mod c03;
+pub mod c05;
 pub mod c06;
 pub mod c08;
 pub mod c17;
@@ -13,6 +14,7 @@ pub mod c23;
 pub mod c27;
 pub mod c28;
 pub mod c29;
+pub mod c32;
 
 pub fn registry() -> &'static [CheckDef] {
     &[
@@ -45,6 +47,16 @@ pub fn registry() -> &'static [CheckDef] {
             cpu_budget_ms: 60_000,
             run: c03::run_c03,
             assumptions: &["the row path of the same build is the oracle (C07's model cross-checks a bug common to both)"],
+        },
+        CheckDef {
+            id: "C05",
+            level: "exploration",
+            rule: "Three generated tables (NULL join keys, duplicates, empty sides), random indexes on a / b / id. Four rewrite families over a random pair of tables and key columns, optionally with an extra local predicate and with either side wrapped as a derived table: inner equi-join (comma join both orders, INNER JOIN both orders, CROSS JOIN + WHERE), semi join (IN, EXISTS, = ANY, DISTINCT over a join), NULL-aware anti join (NOT IN, NOT EXISTS with the NULL-correct condition, NOT (.. IN ..)), plain anti join (NOT EXISTS, LEFT JOIN .. IS NULL, correlated COUNT(*) = 0). Every member is compared with the definitional nested evaluation computed by the harness over the inserted rows with 3VL, so a defect shared by all members is still caught. distinct = (family, set of join algorithm / rewrite probes that fired inside the family, NULLs present, result size class).",
+            floor: 20,
+            shards: 16,
+            cpu_budget_ms: 60_000,
+            run: c05::run,
+            assumptions: &["members that the engine rejects with an error are counted, not judged"],
         },
         CheckDef {
             id: "C06",
@@ -155,6 +167,16 @@ pub fn registry() -> &'static [CheckDef] {
             cpu_budget_ms: 120_000,
             run: c29::run,
             assumptions: &["md-5 and argon2 crates are trusted", "an MD5 response without the 'md5' prefix but with the right hex digest is treated as don't-care"],
+        },
+        CheckDef {
+            id: "C32",
+            level: "exploration",
+            rule: "Two generated base tables; a definition (projection+filter, GROUP BY aggregate, INNER/LEFT join, DISTINCT; columns named by aliases or by an explicit column list) is installed as view v and also used as CTE w; outer queries (all columns, filters incl. IS NULL on view columns - predicate pushdown into the view scan -, aggregates, join with a base table, GROUP BY) are run through the view, through the CTE and with the definition inlined as a derived table; three rounds with INSERT/UPDATE/DELETE on the base tables in between (the view must track them). distinct = (reference kind, definition kind, outer kind, column list, before/after DML, result size class).",
+            floor: 40,
+            shards: 16,
+            cpu_budget_ms: 60_000,
+            run: c32::run,
+            assumptions: &["the inlined derived-table form is the oracle; an outer query whose inlined form is rejected is counted, not judged"],
         },
     ]
 }
